@@ -86,6 +86,17 @@ Proof.
 Qed.
 Print Assumptions C30_scope_monotone.
 
+(* The simulated key sets are also sufficient action by action: ExecuteActions (per-action scopes) on the same
+   actions, each declaring exactly its own simulated key set, succeeds with the simulated outputs.  Same guard as
+   above (same known finding: a per-action scope cannot permit an invalid key either — Keys.Has finds no entry). *)
+Theorem C30_simulate_sufficient_execute_partial :
+  forall (base : key -> option val) (fee : diff) (ps : list prog) (rs : list (bytes * checks)),
+    run_sim (vis base fee) [] ps = Some rs ->
+    sim_touch_valid base fee ps = true ->
+    run_exec (vis base fee) [] (combine (map snd rs) ps) = (map fst rs, true).
+Proof. exact simulate_sufficient_execute. Qed.
+Print Assumptions C30_simulate_sufficient_execute_partial.
+
 (* ---- non-vacuity: concrete scripts (the programs the driver's test action executes) *)
 Definition ex_k1 : key := [208; 0; 1].
 Definition ex_k2 : key := [210; 0; 0].
